@@ -15,7 +15,7 @@ func init() { core.Register("C09", core.Scenario{Run: Run, Replay: Replay}) }
 const rule = "schedules of raw HTTP/2 frames (20-400 ops, 1-6 concurrent streams, both directions) written by two raw-frame endpoints through " +
 	"h2.Config.Proxy, one frame at a time with a barrier pair after each; generated adaptively from each endpoint's own ledger (windows 0-65536, " +
 	"grants aimed at exact fit / one short / small steps, INITIAL_WINDOW_SIZE up and down while data is queued, MAX_FRAME_SIZE 16384-65536, padding, " +
-	"SETTINGS frames that name INITIAL_WINDOW_SIZE / MAX_FRAME_SIZE / HEADER_TABLE_SIZE two or three times between other and unknown identifiers (the last value is in force; INITIAL_WINDOW_SIZE chains with a larger non-final value also while DATA is queued: F51), " +
+	"SETTINGS frames that name INITIAL_WINDOW_SIZE / MAX_FRAME_SIZE / HEADER_TABLE_SIZE two or three times between other and unknown identifiers (the last value is in force; INITIAL_WINDOW_SIZE chains with a larger non-final value also while DATA is queued - the shape of F51, repaired: whatever such a chain releases beyond the value in force is a violation), " +
 	"empty END_STREAM DATA). A case is non-trivial when at least one frame was held by the relay and released later by a WINDOW_UPDATE or SETTINGS; " +
 	"distinct = distinct observed traces"
 
